@@ -47,7 +47,8 @@ struct Probe : Handler {
 // A persistent worker thread (stable thread id): run(f) hands f over and waits until it has finished,
 // so a scenario is executed strictly sequentially whatever thread each message is logged from.
 class Worker {
-    std::thread th; std::mutex mu; std::condition_variable cv; std::function<void()> job; bool busy = false, quit = false;
+    std::mutex mu; std::condition_variable cv; std::function<void()> job; bool busy = false, quit = false;
+    std::thread th; // declared last: the thread may start only after the members above exist
 public:
     Worker() : th([this] {
         std::unique_lock<std::mutex> lk(mu);
